@@ -1336,14 +1336,12 @@ class Process(StateMachine, persistence.Savable, metaclass=ProcessStateMachineMe
             try:
                 next_state = await self._run_task(self._state.execute)
             except process_states.Interruption as exception:
-                # If the interruption was caused by a call to a Process method then there should
-                # be an interrupt action ready to be executed, so just check if the cookie matches
-                # that of the exception i.e. if it is the _same_ interruption.  If not cancel and
-                # build the interrupt action below
-                if self._interrupt_action is not None:
-                    if self._interrupt_action.cookie is not exception:
-                        self._set_interrupt_action_from_exception(exception)
-                else:
+                # If the interruption was caused by a call to a Process method then there is an interrupt action
+                # ready to be executed. It need not belong to this very exception: a later request (e.g. a kill
+                # after a pause) replaces the action of an earlier one whose exception was already delivered to
+                # the state, and the most recent request wins. Only if there is no action at all, i.e. the
+                # interruption was raised by the step itself, build the interrupt action here.
+                if self._interrupt_action is None:
                     self._set_interrupt_action_from_exception(exception)
 
             except KeyboardInterrupt:
